@@ -6,8 +6,10 @@ import GrafeoModel.Model.Persist
 
 `Db.api` is the logged fragment of the `GrafeoDB` API exactly as `database.rs` logs it; the
 theorem is for **every** sequence of those calls interleaved with explicit checkpoints and
-close→reopen cycles, of any length. The unlogged calls (`remove_node_property`, mutations made
-through session queries) are outside the fragment: witness theorems + known findings.
+close→reopen cycles, of any length. `remove_node_property` is part of the fragment since /repo
+commit 0125264 (it logs a `RemoveNodeProperty` record when something was removed); the code before
+that is `Old.api`, with the loss it caused as a regression theorem. Mutations made through session
+queries are still not logged and stay outside the fragment: witness theorem + known finding.
 -/
 
 namespace Grafeo.Persist
@@ -93,6 +95,46 @@ theorem removeLabel_false (s : Store) (id l : Nat) (h : (s.removeLabel id l).2 =
         · simp [hv, hl]
     · simp [hv]
 
+theorem aset_self {ν : Type} (l : AList ν) (k : Nat) (v : ν) (h : aget l k = some v) : aset l k v = l := by
+  induction l with
+  | nil => cases h
+  | cons kv rest ih =>
+    obtain ⟨k0, v0⟩ := kv
+    by_cases h0 : k0 = k
+    · subst h0
+      simp only [aget, if_true, Option.some.injEq] at h
+      subst h; simp [aset]
+    · simp only [aget, h0, if_false] at h
+      simp only [aset, h0, if_false, ih h]
+
+theorem aerase_absent {ν : Type} (l : AList ν) (k : Nat) (h : aget l k = none) : aerase l k = l := by
+  induction l with
+  | nil => rfl
+  | cons kv rest ih =>
+    obtain ⟨k0, v0⟩ := kv
+    by_cases h0 : k0 = k
+    · subst h0; simp [aget] at h
+    · simp only [aget, h0, if_false] at h
+      have hb : (k0 != k) = true := by simp [h0]
+      unfold aerase at ih ⊢
+      simp only [List.filter_cons, hb, if_true, ih h]
+
+/-- `remove_node_property` that finds nothing leaves the store as it is -/
+theorem removeNodeProp_none (s : Store) (id k : Nat) (h : (s.removeNodeProp id k).2 = none) :
+    (s.removeNodeProp id k).1 = s := by
+  unfold Store.removeNodeProp at h ⊢
+  simp only at h ⊢
+  have hp : aerase (s.nodePropsOf id) k = s.nodePropsOf id := aerase_absent _ _ h
+  have hn : (if (aget s.nprops id).isSome then aset s.nprops id (aerase (s.nodePropsOf id) k) else s.nprops) = s.nprops := by
+    cases hg : aget s.nprops id with
+    | none => simp
+    | some p =>
+      simp only [Option.isSome_some, if_true, hp]
+      apply aset_self
+      simp [Store.nodePropsOf, hg]
+  rw [hn, h]
+  cases aget s.pidx k <;> rfl
+
 /-- appending a data record: the pending list grows, the fold applies it last -/
 theorem inSync_data (d : Db) (r : WRec) (s' : Store) (hr : r.kind = .data) (h : InSync d)
     (happ : applyRec d.live r = s') : InSync { d with live := s', log := d.log ++ [r] } := by
@@ -160,6 +202,13 @@ theorem inSync_api (d : Db) (op : LOp) (h : InSync d) (ho : d.isOpen = true) : I
     | false =>
       simp only [Bool.false_eq_true, if_false]
       rw [removeLabel_false _ _ _ hok]; exact h
+  | removeNodeProp id k =>
+    simp only [Db.api]
+    cases hok : (d.live.removeNodeProp id k).2 with
+    | some o => simp only [Option.isSome_some, if_true]; exact inSync_data d _ _ rfl h rfl
+    | none =>
+      simp only [Option.isSome_none, Bool.false_eq_true, if_false]
+      rw [removeNodeProp_none _ _ _ hok]; exact h
   | checkpoint => exact inSync_commit_checkpoint d h
   | closeReopen =>
     simp only [Db.api, Db.close, ho, if_true]
@@ -210,12 +259,26 @@ theorem c05_ids_fresh_after_reopen (ops : List LOp) :
     ((runApi ops).close.reopen).live.nextEdge = (runApi ops).live.nextEdge := by
   rw [c05_reopen_identity_logged_partial]; exact ⟨rfl, rfl⟩
 
-/-- W: `remove_node_property` is applied to the live store but appends nothing to the log, so
-the property is back after close→reopen. -/
+namespace Old
+
+/-- `Db.api` as it was before /repo commit 0125264: `remove_node_property` is applied to the
+store and appends nothing to the log; every other call as now. -/
+def api (d : Db) : LOp → Db
+  | .removeNodeProp id k => { d with live := (d.live.removeNodeProp id k).1 }
+  | op => d.api op
+
+def runApi (ops : List LOp) : Db := ops.foldl Old.api {}
+
+end Old
+
+/-- W (regression; the defect repaired by 0125264): with the old, unlogged `remove_node_property`
+the property is gone from the live store and back after close→reopen; with the logged one it
+stays removed. -/
 theorem c05_remove_property_lost_witness :
-    let d := runApi [.createNode [], .setNodeProp 0 1 "I5"]
-    let d' : Db := { d with live := (d.live.removeNodeProp 0 1).1 }     -- the unlogged call
-    d'.live.nodePropsOf 0 = [] ∧ (d'.close.reopen).live.nodePropsOf 0 = [(1, "I5")] := by decide
+    let h : List LOp := [.createNode [], .setNodeProp 0 1 "I5", .removeNodeProp 0 1]
+    (Old.runApi h).live.nodePropsOf 0 = [] ∧ ((Old.runApi h).close.reopen).live.nodePropsOf 0 = [(1, "I5")] ∧
+    (runApi h).live.nodePropsOf 0 = [] ∧ ((runApi h).close.reopen).live.nodePropsOf 0 = [] ∧
+    (runApi h).log.length = 3 ∧ (Old.runApi h).log.length = 2 := by decide
 
 /-- N: a non-trivial instance of the theorem (delete, label change, checkpoint mid-way, two cycles). -/
 example : ((runApi [.createNode [1], .createNode [], .createEdge 0 1 0, .checkpoint, .setNodeProp 1 2 "Sx",
